@@ -92,6 +92,20 @@ def functions():
         df = fa.single_gene_deletion(m, items, processes=p)
         return {",".join(sorted(ids)): (float(g), 1.0 if s == "optimal" else 0.0) for ids, g, s in zip(df.ids, df.growth, df.status)}
 
+    def _pairs_expected(l1, l2):
+        return {",".join(sorted({a, b})) for a in l1 for b in l2}
+
+    def drd2(m, items, p):
+        # two different lists: the second is the reversed tail of the first plus its head
+        # (the *sets* do not depend on the item order the schedule uses, only the orders do)
+        l1 = list(items)
+        l2 = [x for x in reversed(items) if x != min(items)]
+        df = fa.double_reaction_deletion(m, l1, l2, processes=p)
+        out = {",".join(sorted(ids)): (float(g), 1.0 if s == "optimal" else 0.0) for ids, g, s in zip(df.ids, df.growth, df.status)}
+        for k in _pairs_expected(l1, l2) - set(out):
+            out[k] = (float("nan"), -1.0)  # every requested unordered pair must have its row (judged in run_function)
+        return out
+
     def drd(m, items, p):
         df = fa.double_reaction_deletion(m, items, items, processes=p)
         return {",".join(sorted(ids)): (float(g), 1.0 if s == "optimal" else 0.0) for ids, g, s in zip(df.ids, df.growth, df.status)}
@@ -139,6 +153,7 @@ def functions():
         "single_reaction_deletion(linear moma)": (srd_moma, "reactions", True),
         "single_gene_deletion(linear moma)": (sgd_moma, "genes", True),
         "double_reaction_deletion": (drd, "reactions-few", False),
+        "double_reaction_deletion(two lists)": (drd2, "reactions-few", False),
         "double_gene_deletion": (dgd, "genes", False),
         "find_essential_reactions": (ess_r, "all", False),
         "find_essential_genes": (ess_g, "all", False),
@@ -238,6 +253,10 @@ def run_function(acc, rng, model, fname, F, ident0, tmpdir, rec_sig):
             return
     acc.ev()
     acc.count("schedules_run")
+    missing = sorted(k for k, v in base_res.items() if len(v) > 1 and v[1] == -1.0) if fname.endswith("(two lists)") else []
+    if missing:
+        acc.violation(f"C14/{fname}/requested-combination-has-no-row", f"{fname}: no row for the requested combinations {missing[:4]} ({len(missing)} missing) although each of them, asked alone, has one", dict(ident0, function=fname, missing=missing[:10]))
+        return
     for sched in range(3):
         p = rng.choice([2, 2, 3, 4, 8])
         perm = list(items) if items is not None else None
@@ -356,6 +375,22 @@ def run_optgp(acc, rng, model, ident0):
             return
         acc.ev()
         acc.count("optgp_runs")
+        try:
+            with warnings.catch_warnings():
+                warnings.simplefilter("ignore")
+                import numpy as _np
+
+                s1 = OptGPSampler(model, processes=p, thinning=3, seed=11)
+                s2 = OptGPSampler(model, processes=p, thinning=3, seed=11)
+                _np.random.random(3)  # the caller's own use of numpy's global generator
+                b2 = s2.sample(8)
+                a2 = s1.sample(8)
+            if not (a2.equals(a) and b2.equals(a)):
+                acc.violation("C14/optgp/not-reproducible-for-seed-and-process-count/depends-on-what-happened-between-construction-and-sampling", f"OptGP, seed 11, {p} processes: samplers built first and sampled later (in the other order, with a call to numpy's global generator in between) differ from a sampler used at once", ident)
+                return
+        except Exception as e:
+            acc.violation(f"C14/optgp/raised/{type(e).__name__}", f"OptGP with {p} processes raised {type(e).__name__}: {str(e)[:150]}", ident)
+            return
         if not a.equals(b):
             acc.violation("C14/optgp/not-reproducible-for-seed-and-process-count", f"two OptGP runs with seed 11 and {p} processes differ", ident)
             return
